@@ -19,10 +19,9 @@ LEAN_MODULES = ["MoreExec.Props.C03", "MoreExec.Props.C05"]
 THEOREMS = [
     "MoreExec.WakeProto.C03_sleep_invariant",
     "MoreExec.WakeProto.C03_no_overshoot",
-    "MoreExec.Retry.C03_retry_no_lost_future_partial",
     "MoreExec.Retry.C03_retry_no_lost_future",
     "MoreExec.Retry.C03_retry_no_lost_future_quiescent",
-    "MoreExec.Retry.C03_retry_lost_without_contract",
+    "MoreExec.Retry.C03_mark_pays",
     "MoreExec.MapFut.C03_cancelled_delegate_ends",
     "MoreExec.Throttle.C07_no_idle_capacity",
     "MoreExec.Poll.C08_prompt",
@@ -36,10 +35,8 @@ BUDGET = {"quick": 150, "thorough": 1500}
 ASSUMPTIONS = [
     "liveness is stated as safety: a worker asleep on a clear event with no producer mid-way has nothing it should be doing, and "
     "virtual time never passes a due time while it sleeps; that the worker then runs is the scheduler's fairness (not modelled)",
-    "the retry no-lost-future invariant with client cancels is proved under the delegate contract DC3 as an explicit, decidable "
-    "hypothesis on the run (a delegate whose cancel() returned False is not cancelled afterwards); without it the model admits a "
-    "lost future (witness run proved) - the model lets a foreign thread's `_me_delegate_cancelled` act while a cancel() is in "
-    "progress, which the real code serialises on the future's lock, so the model over-approximates the code there",
+    "the retry no-lost-future theorem is unconditional; that an owed `_me_delegate_cancelled()` is eventually paid is scheduler "
+    "fairness plus C03_mark_pays (it is enabled as soon as the future's lock is free, and makes the future terminal)",
     "static configuration (the property excepts dynamic throttle counts)",
 ]
 RULE = ("one third: single-layer RetryExecutor programs replayed through the Retry model and the wake-up protocol model (every "
@@ -49,11 +46,32 @@ RULE = ("one third: single-layer RetryExecutor programs replayed through the Ret
         "distinct = distinct (program, schedule) hash")
 
 
+WAKE_SIGS = {
+    "throttle": ("C07/idle-capacity", "C07/blocked-with-room"),
+    "poll": ("C08/late-poll", "C08/late-poll-notify"),
+    "timeout": ("C09/late:attempt-after-deadline", "C09/late:idle-jump-passes-deadline", "C09/missed", "C09/stuck:"),
+}
+
+
 def gen_scenarios(seed, tier):
     rng = random.Random(seed * 15487469 + 3)
     n = 2400 if tier == "quick" else 40000
     gen5 = C05.gen_scenarios(seed + 77, tier)
+    from props import C07, C08, C09
+    others = {"throttle": C07.gen_scenarios(seed + 78, tier), "poll": C08.gen_scenarios(seed + 79, tier),
+              "timeout": C09.gen_scenarios(seed + 80, tier)}
     for i in range(n):
+        # the other three worker loops: the single-layer scenarios of C07 / C08 / C09 with their "a sleeping worker has nothing to
+        # do / time never passes a due time" monitors and their replays (clause: no lost wake-up in ANY worker loop)
+        for kind in ("throttle", "poll", "timeout"):
+            if i % 4 == 1:
+                try:
+                    d = dict(next(others[kind]))
+                except StopIteration:
+                    continue
+                d["c03_wake"] = kind
+                d["family"] = "wake-" + kind
+                yield d
         m = i % 3
         if m == 0:
             d = next(gen5)
@@ -173,10 +191,27 @@ def run_foreign(desc):
             "stats": {"foreign_scenarios": 1, "foreign_%s" % desc["form"]: 1}, "sample": None}
 
 
+def run_wake(desc):
+    from props import C07, C08, C09
+    kind = desc["c03_wake"]
+    mod = {"throttle": C07, "poll": C08, "timeout": C09}[kind]
+    r = mod.run_one(desc)
+    keep = []
+    for h in r.get("hits", []):
+        if any(h["sig"].startswith(p) for p in WAKE_SIGS[kind]):
+            keep.append(hit("C03/worker-asleep-with-work:%s:%s" % (kind, h["sig"].split("/", 1)[1]), h.get("detail")))
+    r["hits"] = keep
+    r["stats"] = {"family_wake-%s" % kind: 1}
+    r["sample"] = None
+    return r
+
+
 def run_one(desc):
     fam = desc.get("family")
     if fam == "foreign":
         return run_foreign(desc)
+    if desc.get("c03_wake"):
+        return run_wake(desc)
     s, ctx, out = sc.run_stack(desc, props=("C03", "C18"))
     hits = list(out.get("C03", []))
     hits += [h for h in out.get("C18", []) if h["sig"].startswith("C18/thread-died")]
